@@ -104,18 +104,45 @@ theorem layerName_evalEnv (L : Layers ν) (c : PyCode) (hok : AliasOK L c) (k : 
   rw [hM, wrap_layerName, hlk, hk]
   rfl
 
+/-- under the contract no reserved name is found in the environment of the evaluation -/
+theorem reservedHit_false (L : Layers ν) (c : PyCode) (hok : AliasOK L c) :
+    reservedHit (evalEnv L c.aliases) = false := by
+  obtain ⟨M, hM, hlk⟩ := evalEnv_spec L c.aliases hok.nodup (aliasOK_hold hok)
+  rw [hM]
+  simp only [reservedHit, List.any_eq_false]
+  intro r hr
+  obtain ⟨hv, h2⟩ := hok.noReserved r hr
+  simp [wrap_get, hlk, aliasVal_lookup, h2, hv]
+
+/-- conversely: a layer that binds a reserved name makes the check fire, whatever the aliases -/
+theorem reservedHit_of_bound (L : Layers ν) (al : List (String × String)) (r : String)
+    (hr : r ∈ Gen.reservedNames) (hb : valueOf L r ≠ none)
+    (hnd : (al.map (·.1)).Nodup) (hold : ∀ a ∈ al, a.1 ≠ a.2 → ∀ b ∈ al, b.2 ≠ a.1)
+    (hna : al.lookup r = none) :
+    reservedHit (evalEnv L al) = true := by
+  obtain ⟨M, hM, hlk⟩ := evalEnv_spec L al hnd hold
+  rw [hM]
+  simp only [reservedHit, List.any_eq_true]
+  refine ⟨r, hr, ?_⟩
+  rw [wrap_get, hlk, aliasVal_lookup, hna]
+  cases hv : valueOf L r with
+  | none => exact absurd hv hb
+  | some v => rfl
+
 theorem aliasOK_restrict {L : Layers ν} {c : PyCode} (h : AliasOK L c) (keep : List String) :
     AliasOK (L.restrict keep) c :=
   { nodup := h.nodup
     fresh := fun a ha hne =>
       ⟨lookupAll_none_restrict L keep a.1 (h.fresh a ha hne).1, (h.fresh a ha hne).2.1, (h.fresh a ha hne).2.2⟩
-    chains := h.chains }
+    chains := h.chains
+    noReserved := fun r hr => ⟨valueOf_none_restrict L keep r (h.noReserved r hr).1, (h.noReserved r hr).2⟩ }
 
 theorem aliasOK_remove {L : Layers ν} {c : PyCode} (h : AliasOK L c) (v : String) :
     AliasOK (L.remove v) c :=
   { nodup := h.nodup
     fresh := fun a ha hne =>
       ⟨lookupAll_none_remove L v a.1 (h.fresh a ha hne).1, (h.fresh a ha hne).2.1, (h.fresh a ha hne).2.2⟩
-    chains := h.chains }
+    chains := h.chains
+    noReserved := fun r hr => ⟨valueOf_none_remove L v r (h.noReserved r hr).1, (h.noReserved r hr).2⟩ }
 
 end FormulaicVerif.Proofs.C17
